@@ -1,7 +1,7 @@
 (* C19: the data arrays of a concatenated data set (Model/ConcatData.v): corollary of C05_concat plus
    "the parts' selections glued = the selection of the whole applied to the glued stored arrays". *)
 From Coq Require Import ZArith List Bool Lia.
-From KV Require Import Base.Sx Base.PySlice Base.AxisIndex Base.NdArray Model.LazyIdx Model.ConcatIdx
+From KV Require Import Base.Sx Base.PySlice Base.AxisIndex Base.NdArray Base.LazyDType Model.LazyIdx Model.ConcatIdx
   Proofs.LazyIdxP Proofs.ConcatIdxP Model.ConcatData.
 Import ListNotations.
 Open Scope Z_scope.
@@ -87,14 +87,28 @@ Proof.
   set (fulls := map (full_of tailkeep) parts).
   assert (TL : forall a, In a fulls -> tl (nd_shape a) = take_shape (tsels tailkeep)).
   { intros a Ha. unfold fulls in Ha. apply in_map_iff in Ha. destruct Ha as (p & <- & _). reflexivity. }
-  assert (PICK : exists a rest, (match filter (fun a : nd => negb (hd 0 (nd_shape a) =? 0)) fulls with
-                                 | [] => firstn 1 fulls | _ :: _ => filter (fun a : nd => negb (hd 0 (nd_shape a) =? 0)) fulls end) = a :: rest
-                                /\ In a fulls).
-  { destruct (filter (fun a : nd => negb (hd 0 (nd_shape a) =? 0)) fulls) as [|a rest] eqn:E.
-    - unfold fulls. destruct parts as [|p r]; [congruence|]. cbn. eexists; eexists; split; [reflexivity|left; reflexivity].
-    - exists a, rest. split; [reflexivity|]. assert (In a (a :: rest)) by (left; reflexivity). rewrite <- E in H.
-      apply filter_In in H. tauto. }
-  destruct PICK as (a & rest & -> & Ha). rewrite (TL a Ha).
+  set (fd := combine fulls (map r_dt (map (raw_of tail tailkeep dt) parts))).
+  assert (FD : forall q, In q fd -> In (fst q) fulls /\ snd q = dt).
+  { intros (a, d) Hq. unfold fd in Hq. split; [exact (in_combine_l _ _ _ _ Hq)|].
+    apply in_combine_r in Hq. rewrite map_map in Hq. apply in_map_iff in Hq. destruct Hq as (p & <- & _). reflexivity. }
+  assert (PICK : exists a rest, (match filter (fun q : nd * Z => negb (hd 0 (nd_shape (fst q)) =? 0)) fd with
+                                 | [] => firstn 1 fd | _ :: _ => filter (fun q : nd * Z => negb (hd 0 (nd_shape (fst q)) =? 0)) fd end)
+                                = (a, dt) :: rest
+                                /\ In a fulls /\ Forall (fun q => snd q = dt) rest).
+  { destruct (filter (fun q : nd * Z => negb (hd 0 (nd_shape (fst q)) =? 0)) fd) as [|(a, d) rest] eqn:E.
+    - unfold fd, fulls. destruct parts as [|p r]; [congruence|]. cbn. eexists; eexists; split; [reflexivity|].
+      split; [left; reflexivity|constructor].
+    - assert (IN : forall q, In q ((a, d) :: rest) -> In q fd) by (intros q Hq; rewrite <- E in Hq; apply filter_In in Hq; tauto).
+      destruct (FD (a, d) (IN _ (or_introl eq_refl))) as (Ha & Hd). cbn in Ha, Hd. subst d.
+      exists a, rest. split; [reflexivity|]. split; [exact Ha|].
+      apply Forall_forall. intros q Hq. apply (FD q). apply IN. right. exact Hq. }
+  destruct PICK as (a & rest & -> & Ha & Hr). rewrite (TL a Ha).
+  assert (PR : promote_all (dt :: map snd rest) = Ok dt).
+  { unfold promote_all. cut (forall acc, acc = Ok dt -> fold_left (fun acc x => a0 <- acc ;; promote a0 x) (map snd rest) acc = Ok dt).
+    { intro C. apply C. reflexivity. }
+    clear -Hr. induction Hr as [|q rest Hq _ IH]; intros acc ->; [reflexivity|]. cbn [map fold_left bind].
+    apply IH. rewrite Hq. unfold promote. rewrite Z.eqb_refl. reflexivity. }
+  rewrite PR. cbn [bind].
   assert (E1 : zsum (map (fun a0 : nd => hd 0 (nd_shape a0)) fulls) = zlen (nonzero (List.concat (map dp_tk parts)))).
   { unfold nonzero. rewrite nonzero_concat_len. unfold fulls. rewrite !map_map. reflexivity. }
   assert (E2 : cat (map nd_body fulls) = take (cat (map dp_ds parts)) ((nonzero (List.concat (map dp_tk parts)), false) :: tsels tailkeep)).
@@ -102,16 +116,15 @@ Proof.
     rewrite flat_map_concat_map, map_map. cbn [children]. rewrite <- flat_map_concat_map.
     symmetry. unfold cat. exact (glued_rows (tsels tailkeep) parts [] F). }
   cbn [take_shape]. rewrite E1, E2.
-  destruct (oindex _ ix) as [r|]; [|reflexivity]. cbn [bind apply_transforms fold_left].
-  destruct parts as [|p0 pr]; [congruence|]. reflexivity.
+  destruct (oindex _ ix) as [r|]; reflexivity.
 Qed.
 
 Lemma raws_ok tail tailkeep dt parts : Forall dpart_ok parts -> tail_ok tail tailkeep ->
-  Forall (raw_ok dt) (map (raw_of tail tailkeep dt) parts).
+  Forall raw_ok (map (raw_of tail tailkeep dt) parts).
 Proof.
   intros F (TN & _). apply Forall_forall. intros r Hr. apply in_map_iff in Hr. destruct Hr as (p & <- & Hp).
   rewrite Forall_forall in F. destruct (F p Hp) as (HK & _). unfold raw_ok, raw_of. cbn.
-  split; [constructor; [rewrite <- HK; apply zlen_nonneg|exact TN]|]. split; [discriminate|reflexivity].
+  split; [constructor; [rewrite <- HK; apply zlen_nonneg|exact TN]|discriminate].
 Qed.
 
 (* C19_index: indexing the arrays of a concatenated data set = indexing the concatenated stored arrays under the
